@@ -50,6 +50,13 @@ func TestC14_Stream(t *testing.T) {
 			g.Fatalf("NewChacha20PRG(32-byte seed, %d-byte customizer) failed: %v", len(cust), err)
 		}
 		forks := []*prgFork{{r: r}}
+		// states handed out by Store() earlier and kept by the caller (not copied): each must stay what it was while the
+		// generator goes on, and must still restore to the offset at which it was taken
+		type snapshot struct {
+			st, copyOf []byte
+			pos        uint64
+		}
+		var snaps []snapshot
 		steps := g.Int("steps", 1, 24)
 		small, large, unalignedRestore := false, false, false
 		kinds := map[string]bool{}
@@ -77,6 +84,9 @@ func TestC14_Stream(t *testing.T) {
 				if len(st) != 52 {
 					g.Fatalf("Store() returned %d bytes", len(st))
 				}
+				if len(snaps) < 6 {
+					snaps = append(snaps, snapshot{st, append([]byte{}, st...), f.pos})
+				}
 				st2 := append([]byte{}, st...)
 				nr, err := random.RestoreChacha20PRG(st2)
 				if err != nil {
@@ -95,7 +105,11 @@ func TestC14_Stream(t *testing.T) {
 				kinds["restore"] = true
 			case 6: // fork: keep both, they must continue identically (checked against the same model)
 				if len(forks) < 4 {
-					nr, err := random.RestoreChacha20PRG(f.r.Store())
+					kst := f.r.Store() // the generator it was taken from stays in use: the state must not follow it
+					if len(snaps) < 6 {
+						snaps = append(snaps, snapshot{kst, append([]byte{}, kst...), f.pos})
+					}
+					nr, err := random.RestoreChacha20PRG(kst)
 					if err != nil {
 						g.Fatalf("RestoreChacha20PRG(Store()) at offset %d failed: %v", f.pos, err)
 					}
@@ -147,6 +161,23 @@ func TestC14_Stream(t *testing.T) {
 			if p := streamPos(g, f.r, seed, nonce, f.pos, 0); p != f.pos {
 				g.Fatalf("a generator restored from Store() does not continue at the model offset %d", f.pos)
 			}
+		}
+		for i, sn := range snaps {
+			if !bytes.Equal(sn.st, sn.copyOf) {
+				g.Fatalf("the state returned by Store() at offset %d (snapshot #%d) changed while the generator was used further: it was %x, the same slice now holds %x", sn.pos, i, sn.copyOf, sn.st)
+			}
+			nr, err := random.RestoreChacha20PRG(sn.st)
+			if err != nil {
+				g.Fatalf("restoring a state stored earlier (offset %d) failed: %v", sn.pos, err)
+			}
+			buf := make([]byte, 70)
+			nr.Read(buf)
+			if want := chacha.Keystream(seed, nonce, sn.pos, 70); !bytes.Equal(buf, want) {
+				g.Fatalf("a state stored at offset %d and restored after the generator had moved on does not resume at that offset", sn.pos)
+			}
+		}
+		if len(snaps) > 1 {
+			g.Class("severalStatesKept")
 		}
 		// all forks: a final read from each must match the model
 		for _, f := range forks {
